@@ -25,11 +25,11 @@ CONSTANTS MaxK
 VARIABLES form, fam, k, n, pc
 vars == <<form, fam, k, n, pc>>
 
-Forms == {"key_plain", "key_all", "key_of", "seq_all", "seq_of", "idl_all", "idl_of"}
-Thresholded == {"key_of", "seq_of", "idl_of"}
+Forms == {"key_plain", "key_all", "key_of", "seq_all", "seq_of", "idl_all", "idl_of", "seqm_all", "seqm_of"}
+Thresholded == {"key_of", "seq_of", "idl_of", "seqm_of"}
 (* families of member lists: position i -> member value *)
 Letter(i) == <<96 + i>>
-Families == {"aho", "mixed", "icmix", "num", "bool", "nested"}
+Families == {"aho", "mixed", "icmix", "num", "bool", "nested", "restar"}
 Memb(f, i) ==
   CASE f = "aho"   -> ContainsP(Letter(i))
     [] f = "mixed" -> IF i % 2 = 0 THEN Rx(<<RxC(96 + i)>>, FALSE) ELSE ContainsP(Letter(i))
@@ -39,11 +39,19 @@ Memb(f, i) ==
                          [] OTHER -> CmpV("le", MkInt(FALSE, <<7>>)))
     [] f = "bool"  -> BoolV(i % 2 = 1)
     [] f = "nested" -> MapV(<<Ent(Letter(i), ExactP(<<120>>))>>)
+    (* regexes that become IDENTICAL once the optimiser has stripped a leading / trailing ".*":  *)
+    (* .*a   a.*   .*a.*   a   (all contain-a), then b                                          *)
+    [] f = "restar" -> (CASE i = 1 -> Rx(<<[t |-> "star"], RxC(97)>>, FALSE)
+                          [] i = 2 -> Rx(<<RxC(97), [t |-> "star"]>>, FALSE)
+                          [] i = 3 -> Rx(<<RxC(98)>>, FALSE)
+                          [] i = 4 -> Rx(<<[t |-> "star"], RxC(97), [t |-> "star"]>>, FALSE)
+                          [] OTHER -> Rx(<<RxC(99)>>, FALSE))
 MaxKOf(f) == IF f = "bool" THEN 2 ELSE MaxK
 
 Init == /\ pc = "gen" /\ form \in Forms /\ fam \in Families /\ k \in 1..MaxK /\ k <= MaxKOf(fam)
         /\ n \in (IF form \in Thresholded THEN 0..(k + 1) ELSE {0})
-        /\ (form \in {"seq_all", "seq_of"} => fam \in {"aho", "mixed", "num", "bool"})
+        /\ (form \in {"seq_all", "seq_of", "seqm_all", "seqm_of"} => fam \in {"aho", "mixed", "num", "bool"})
+        /\ (fam = "restar" => form \in {"key_plain", "key_all", "key_of"})
 Next == pc = "gen" /\ pc' = "done" /\ UNCHANGED <<form, fam, k, n>>
 Spec == Init /\ [][Next]_vars
 
@@ -59,17 +67,22 @@ QuantSrc ==
     [] form = "key_of"    -> Src(Id(A1), << <<A1, MapB(<<EntM("of", n, F, ListV(Membs))>>)>> >>)
     [] form = "seq_all"   -> Src(AllC(A1), << <<A1, SeqB([i \in 1..k |-> MapB(<<Ent(Fld(i), Membs[i])>>)])>> >>)
     [] form = "seq_of"    -> Src(OfC(A1, n), << <<A1, SeqB([i \in 1..k |-> MapB(<<Ent(Fld(i), Membs[i])>>)])>> >>)
+    (* seqm: the mappings of the sequence SHARE a field (f0: z), so the matrix optimisation turns *)
+    (* the identifier into a table                                                                *)
+    [] form = "seqm_all"  -> Src(AllC(A1), << <<A1, SeqB([i \in 1..k |-> MapB(<<Ent(F, ExactP(<<122>>)), Ent(Fld(i), Membs[i])>>)])>> >>)
+    [] form = "seqm_of"   -> Src(OfC(A1, n), << <<A1, SeqB([i \in 1..k |-> MapB(<<Ent(F, ExactP(<<122>>)), Ent(Fld(i), Membs[i])>>)])>> >>)
     [] form = "idl_all"   -> Src(AllC(A1), << <<A1, MapB(<<Ent(F, ListV(Membs))>>)>> >>)
     [] form = "idl_of"    -> Src(OfC(A1, n), << <<A1, MapB(<<Ent(F, ListV(Membs))>>)>> >>)
 
-PerField == form \in {"seq_all", "seq_of"}
+PerField == form \in {"seq_all", "seq_of", "seqm_all", "seqm_of"}
+Shared == form \in {"seqm_all", "seqm_of"}
 FieldOf(i) == IF PerField THEN Fld(i) ELSE F
-ExplIds == [i \in 1..k |-> <<MId(i), MapB(<<Ent(FieldOf(i), Membs[i])>>)>>]
+ExplIds == [i \in 1..k |-> <<MId(i), MapB((IF Shared THEN <<Ent(F, ExactP(<<122>>))>> ELSE <<>>) \o <<Ent(FieldOf(i), Membs[i])>>)>>]
 SubsetsOf(m) == {S \in SUBSET (1..k) : Cardinality(S) = m}
 AndOver(S) == Chain("and", [j \in 1..Cardinality(S) |-> Id(MId(SetSeq(S)[j]))])
 ExplCond ==
   IF form \in {"key_plain"} THEN Chain("or", [i \in 1..k |-> Id(MId(i))])
-  ELSE IF form \in {"key_all", "seq_all", "idl_all"} THEN Chain("and", [i \in 1..k |-> Id(MId(i))])
+  ELSE IF form \in {"key_all", "seq_all", "idl_all", "seqm_all"} THEN Chain("and", [i \in 1..k |-> Id(MId(i))])
   ELSE IF n = 0 THEN Chain("and", [i \in 1..k |-> NotC(Id(MId(i)))])
   ELSE IF n > k THEN AndC(Id(MId(1)), NotC(Id(MId(1))))             \* never true
   ELSE LET subs == SetSeq(SubsetsOf(n)) IN
@@ -77,30 +90,50 @@ ExplCond ==
 ExplSrc == Src(ExplCond, ExplIds)
 
 (* documents *)
+RECURSIVE FlatQ(_)
+FlatQ(ss) == IF ss = <<>> THEN <<>> ELSE Head(ss) \o FlatQ(Tail(ss))
 Vectors == [1..k -> BOOLEAN]
 StrDoc(v) == OV(<< <<F, SV(<<122>> \o Flat([i \in 1..k |-> IF v[i] THEN (IF fam = "icmix" /\ i % 2 = 0 THEN <<96 + i>> ELSE Letter(i)) ELSE <<>>]))>> >>)
-PerFieldDoc(v) == OV([i \in 1..k |-> <<Fld(i),
+SharedKv == IF Shared THEN << <<F, SV(<<122>>)>> >> ELSE <<>>
+PerFieldDoc(v) == OV(SharedKv \o [i \in 1..k |-> <<Fld(i),
      IF fam = "num" THEN IV(FALSE, IF v[i] THEN <<2>> ELSE <<9>>)
      ELSE IF fam = "bool" THEN BV(IF v[i] THEN i % 2 = 1 ELSE i % 2 = 0)
      ELSE SV(IF v[i] THEN Letter(i) ELSE <<122>>)>>])
+(* per-field documents in which the fields of w are ABSENT (matrix rows with absent columns) *)
+PartialDoc(v, w) == OV(SharedKv \o FlatQ([i \in 1..k |-> IF w[i] THEN <<>> ELSE << <<Fld(i),
+     IF fam = "num" THEN IV(FALSE, IF v[i] THEN <<2>> ELSE <<9>>)
+     ELSE IF fam = "bool" THEN BV(IF v[i] THEN i % 2 = 1 ELSE i % 2 = 0)
+     ELSE SV(IF v[i] THEN Letter(i) ELSE <<122>>)>> >>]))
 NumDocs == {OV(<< <<F, IV(FALSE, <<d>>)>> >>) : d \in {0, 1, 2, 3, 5, 7, 9}}
 BoolDocs == {OV(<< <<F, BV(b)>> >>) : b \in BOOLEAN}
 NestedDoc(v) == OV(<< <<F, OV(Flat([i \in 1..k |-> << <<Letter(i), SV(IF v[i] THEN <<120>> ELSE <<121>>)>> >>]))>> >>)
 DocSet ==
   (IF PerField THEN {PerFieldDoc(v) : v \in Vectors}
+                    \cup (IF Shared THEN {PartialDoc(v, w) : v \in Vectors, w \in Vectors} ELSE {})
    ELSE CASE fam \in {"aho", "mixed", "icmix"} -> {StrDoc(v) : v \in Vectors}
+          [] fam = "restar" -> {OV(<< <<F, SV(h)>> >>) : h \in {<<97>>, <<98>>, <<97, 98>>, <<122>>, <<97, 98, 99>>}}
           [] fam = "num" -> NumDocs
           [] fam = "bool" -> BoolDocs
           [] fam = "nested" -> {NestedDoc(v) : v \in Vectors})
   \cup {OV(<<>>)}
 Docs == SetSeq(DocSet)
 
+(* of(.., 0) - "no member matches" - is true when some members are false and the others missing, *)
+(* while its explicit form with `not` is not (not missing = false): for n = 0 the law is stated  *)
+(* on documents where no member is missing, or all are                                          *)
+NoneOf == form \in Thresholded /\ n = 0
 CountLaw == \A i \in DOMAIN Docs :
-   LangVerdicts(QuantSrc, Docs[i]) = LangVerdicts(ExplSrc, Docs[i])
-   /\ Cardinality(LangVerdicts(QuantSrc, Docs[i])) = 1
+   (Cardinality(LangVerdicts(QuantSrc, Docs[i])) = 1 /\ Cardinality(LangVerdicts(ExplSrc, Docs[i])) = 1
+    /\ (NoneOf => (Definite(QuantSrc, Docs[i]) \/ Docs[i] = OV(<<>>))))
+      => LangVerdicts(QuantSrc, Docs[i]) = LangVerdicts(ExplSrc, Docs[i])
+PinnedEnough == Cardinality({i \in DOMAIN Docs : Cardinality(LangVerdicts(QuantSrc, Docs[i])) = 1}) * 2 >= Len(Docs)
 
 Emit == pc = "done" =>
   PrintT("REPLAY " \o ToJson([topic |-> "C08", form |-> form, fam |-> fam, oracle |-> TRUE, wt |-> TRUE,
-                               src |-> QuantSrc, alts |-> <<ExplSrc>>, docs |-> Docs,
-                               plan |-> [tri |-> FALSE, eng |-> TRUE, sws |-> << <<>> >>]]))
+                               src |-> QuantSrc, alts |-> IF NoneOf /\ Shared THEN <<>> ELSE <<ExplSrc>>, docs |-> Docs,
+                               plan |-> [tri |-> FALSE, eng |-> TRUE, scope |-> "sw",
+                                        sws |-> IF Shared \/ fam = "restar"
+                                                THEN << <<>>, <<TRUE, TRUE, TRUE, TRUE>>, <<FALSE, FALSE, TRUE, FALSE>>,
+                                                        <<FALSE, FALSE, FALSE, TRUE>>, <<FALSE, TRUE, FALSE, TRUE>> >>
+                                                ELSE << <<>>, <<TRUE, TRUE, TRUE, TRUE>> >>]]))
 =============================================================================
